@@ -73,7 +73,9 @@ Definition valid_sid (s : bytes) : bool := Nat.eqb (length s) 8 && negb (zero s)
 Definition octx_valid (c : octx) : bool := valid_tid (o_tid c) && valid_sid (o_sid c).
 Definition sampled_flag (f : N) : bool := N.odd f.
 
-(** What the sampler answered: 0 Drop, 1 RecordOnly, 2 RecordAndSample. *)
+(** What the sampler answered: 0 Drop, 1 RecordOnly, 2 RecordAndSample; a custom sampler may answer a
+    value outside the three (3..255): it is not record-and-sample, so the flag must stay clear and the span
+    must not be exported; whether such a span records is left to the code (it does not). *)
 Definition D_DROP : N := 0.
 Definition D_RECORD : N := 1.
 Definition D_SAMPLE : N := 2.
@@ -94,7 +96,7 @@ Definition start_ok (stock : bool) (parent : octx) (gen_t gen_s : bytes) (d : N)
   (* decision <-> flag, recording, export; other flag bits of the parent preserved *)
   Bool.eqb (sampled_flag (o_flags c)) (d =? D_SAMPLE) &&
   (o_flags c / 2 =? o_flags parent / 2) &&
-  Bool.eqb recording (negb (d =? D_DROP)) &&
+  (if d <=? D_SAMPLE then Bool.eqb recording (negb (d =? D_DROP)) else true) &&
   Bool.eqb exported (sampled_flag (o_flags c)) &&
   (* tracestate: what the sampler answered; the parent's - for EVERY decision, dropped
      spans included: their context is what travels downstream - unless a user sampler supplied another *)
